@@ -128,10 +128,7 @@ func (e *Eval) registerSkillCB(c *ast.CallExpr, env *Env) (Obj, error) {
 		node:   fn.Body,
 	}
 	for i, v := range fn.Args {
-		param, err := e.evalExpr(c.Args[i], env)
-		if err != nil {
-			return nil, err
-		}
+		param := objs[i]
 		node.env.varMap[v.Value] = &param
 	}
 	e.targetNode[key.TargetID(target)] = node
@@ -156,10 +153,7 @@ func (e *Eval) registerUltCB(c *ast.CallExpr, env *Env) (Obj, error) {
 		node:   fn.Body,
 	}
 	for i, v := range fn.Args {
-		param, err := e.evalExpr(c.Args[i], env)
-		if err != nil {
-			return nil, err
-		}
+		param := objs[i]
 		node.env.varMap[v.Value] = &param
 	}
 	e.ultNodes = append(e.ultNodes, node)
